@@ -122,6 +122,15 @@ CHECKS = {
         "names that are class attributes / properties of any class on the path are excluded from the flat-access obligation",
         "property-based testing: Hypothesis structured generation; reference-model oracle (explicit path walkers) and round-trip oracle for copies",
     ),
+    "C17": (
+        "exploration",
+        "Workloads over generated inputs of all classes (wire round trips in all forms, harness-built and contaminated trees, held "
+        "instances, type conversions incl. DateTime strings, failing constructions and mis-nested bodies): deep before/after snapshots "
+        "of bytes, element trees and models; results before / after / after-permuted histories and on repetition compared by "
+        "canonical dump; 2-16 concurrent threads must reproduce the sequential baseline.",
+        "thread interleavings are the interpreter's (10us switch interval), so the thread part can only refute",
+        "property-based testing: Hypothesis-generated operation histories with snapshot (purity) and history-independence invariants; concurrent differential against sequential baseline",
+    ),
 }
 
 PENDING_REASON = "check not built yet in this round (planned in DESIGN.md §3); not claimed until its machinery exists and is quiet on the unchanged tree"
